@@ -257,6 +257,8 @@ PropViolations(e, o) ==
         THEN {<<"C08", "a text is retained although it is neither queued nor the last message">>} ELSE {})
   \cup (IF e.ev # "Done" /\ e.st.ms # "enc" /\ e.st.auth \in {"nil", "none"} /\ e.st.held # <<>>
         THEN {<<"C08", "DH exponents are retained although no session or key exchange exists">>} ELSE {})
+  \cup (IF e.ev = "End" /\ ~e.err /\ (e.st.auth \notin {"nil", "none"} \/ e.st.ax # 0)
+        THEN {<<"C08", "End() left the ephemeral secrets of an unfinished key exchange reachable">>} ELSE {})
   \cup (IF e.ev # "Done" /\ e.st.ms = "fin" /\ e.st.rsq # <<>>
         THEN {<<"C08", "text retained after the peer ended the session">>} ELSE {})
   \cup (IF e.ev # "Done" /\ \E i \in DataOuts(e) : e.out[i].pad # "ok"
